@@ -252,7 +252,8 @@ def run_property(pid, tier):
         samples += [{"oracle": s} for s in res["oracle"].get("samples", [])[:2]]
     samples += [{"theorem": t} for t in res.get("theorems", [])[:3]]
     evals = res.get("corr_evaluations", 0) + (res.get("oracle", {}) or {}).get("explored", 0)
-    distinct = (res.get("oracle", {}) or {}).get("distinct_nontrivial", 0)
+    distinct = (res.get("oracle", {}) or {}).get("distinct_nontrivial", 0) + sum(
+        v.get("distinct", 0) for v in res.get("correspondence", {}).values())
     cov = {
         "obligations": res.get("obligations", 0), "discharged": res.get("discharged", 0),
         "checker_cmd": "cd lean && lake build " + " ".join(["driver"] + cfg.get("modules", [])) + "  # then #print axioms on every theorem listed below",
@@ -261,7 +262,7 @@ def run_property(pid, tier):
         "headline": cfg.get("headline", []),
         "missing_or_partial": cfg.get("missing", []),
         "evaluations": max(evals, 1), "distinct_nontrivial": max(distinct, 2 if evals > 1 else 0),
-        "rule": "correspondence: generated scripts compared bit-for-bit between the Lean model driver and the implementation; oracle: " + ((res.get("oracle") or {}).get("rule", "n/a")),
+        "rule": "correspondence: generated scripts compared bit-for-bit between the Lean model driver and the implementation (distinct = distinct scripts/commands/cases, all of them exercise model and implementation); oracle: " + ((res.get("oracle") or {}).get("rule", "n/a")),
         "samples": samples[:8] or ["none"],
         "exhaustive": False,
         "correspondence": {k: {kk: vv for kk, vv in v.items() if kk != "samples"} for k, v in res.get("correspondence", {}).items()},
